@@ -5,6 +5,7 @@ import random
 
 # --------------------------------------------------------------------------- types
 INT, BOOL, BYTES, VOID, DATA = {"t": "Int"}, {"t": "Bool"}, {"t": "ByteArray"}, {"t": "Void"}, {"t": "Data"}
+STRING = {"t": "String"}
 
 
 def TList(e): return {"t": "List", "e": e}
@@ -32,6 +33,7 @@ TYPES = {
     "Tagged": {"ps": [], "cs": [{"n": "Noop", "fs": [], "ls": None}, {"n": "Halt", "fs": [INT], "ls": None, "tag": 200},
                                 {"n": "Go", "fs": [BYTES], "ls": None, "tag": 7}]},
     "Rec5": {"ps": [], "cs": [{"n": "Rec5", "fs": [INT, BOOL], "ls": ["a", "b"], "tag": 5}], "type_tag": True},
+    "Named": {"ps": [], "cs": [{"n": "Named", "fs": [STRING, INT], "ls": ["label", "weight"]}]},
     "RecL": {"ps": [], "cs": [{"n": "RecL", "fs": [INT, BYTES, TOption(INT)], "ls": ["a", "b", "c"]}], "type_list": True},
     "Inner": {"ps": ["b"], "cs": [{"n": "Inner", "fs": [TList(TVar("b"))], "ls": ["inner"]}]},
     "Wrap": {"ps": ["a"], "cs": [{"n": "Wrap", "fs": [TAdt("Inner", TVar("a")), INT], "ls": ["w", "n"]}]},
@@ -68,7 +70,7 @@ def field_types(ty, ci, types=TYPES):
 
 def ty_str(ty):
     t = ty["t"]
-    if t in ("Int", "Bool", "ByteArray", "Void", "Data"):
+    if t in ("Int", "Bool", "ByteArray", "String", "Void", "Data"):
         return t
     if t == "List":
         return "List<%s>" % ty_str(ty["e"])
@@ -98,6 +100,8 @@ def rand_value(rng, ty, depth=2):
         return {"v": "bool", "b": rng.random() < 0.5}
     if t == "ByteArray":
         return {"v": "bytes", "bs": [rng.randint(0, 255) for _ in range(rng.choice([0, 1, 2, 3]))]}
+    if t == "String":
+        return {"v": "str", "cs": rng.choice([[], [97], [97, 98], [104, 105, 33], [32], [97, 34, 98]])}
     if t == "Void":
         return {"v": "void"}
     if t == "Data":
@@ -138,6 +142,8 @@ def to_data(ty, v):
         return {"d": "I", "v": v["n"]}
     if t == "ByteArray":
         return {"d": "B", "v": v["bs"]}
+    if t == "String":
+        return {"d": "B", "v": v["cs"]}
     if t == "Bool":
         return {"d": "C", "tag": 1 if v["b"] else 0, "fs": []}
     if t == "Void":
@@ -185,7 +191,7 @@ def free_vars(e):
     k = e["k"]
     if k == "var":
         return {e["x"]}
-    if k in ("int", "bool", "bytes", "void", "fail", "todo", "fnref"):
+    if k in ("int", "bool", "bytes", "str", "void", "fail", "todo", "fnref"):
         return set()
     if k in ("neg", "not", "traceif", "todata", "field", "tupidx"):
         return free_vars(e["e"])
@@ -232,7 +238,7 @@ def ser_pool():
     base = [INT, BOOL, BYTES, TList(INT), TOption(INT), TAdt("Color"), TAdt("Point"), TAdt("Shape"), TAdt("Tree"),
             TTuple(INT, BOOL), TTuple(INT, TAdt("Color"), BYTES), TPair(INT, BYTES), TAdt("Box", INT), TAdt("Either", INT, BOOL),
             TList(TAdt("Point")), TList(TPair(INT, INT)), TOption(TAdt("Shape")), TAdt("Acct"), DATA, VOID,
-            TList(TList(INT)), TAdt("Box", TAdt("Option", BOOL))]
+            TList(TList(INT)), TAdt("Box", TAdt("Option", BOOL)), TAdt("Named"), TList(STRING), TTuple(STRING, INT), TOption(STRING)]   # a bare String does not cast to Data
     return base
 
 
@@ -332,6 +338,8 @@ class G:
             return {"k": "bool", "b": r.random() < 0.5}
         if t == "ByteArray":
             return {"k": "bytes", "bs": [r.randint(0, 255) for _ in range(r.choice([0, 1, 2, 4]))]}
+        if t == "String":
+            return {"k": "str", "cs": r.choice([[], [97], [97, 98], [104, 105, 33], [32], [97, 34, 98]])}
         if t == "Void":
             return {"k": "void"}
         if t == "List":
@@ -461,7 +469,7 @@ class G:
                         "r": self.gen(INT, env, fuel // 2)}
             if c < 0.45:
                 et = r.choice([BOOL, BYTES, TAdt("Color"), TList(INT), TOption(INT), TAdt("Point"), TTuple(INT, BOOL), TAdt("Shape"), DATA,
-                               TPair(INT, BYTES), TAdt("Tree")])
+                               TPair(INT, BYTES), TAdt("Tree"), STRING, TAdt("Named"), TList(STRING)])
                 return {"k": "binop", "op": r.choice(["==", "!="]), "l": self.gen_na(et, env, fuel // 2), "r": self.gen_na(et, env, fuel // 2), "ety": et}
             if c < 0.65:
                 return {"k": "binop", "op": r.choice(["&&", "||"]), "l": self.gen(BOOL, env, fuel // 2), "r": self.gen(BOOL, env, fuel // 2)}
@@ -510,6 +518,17 @@ class G:
                 fts = field_types(ty, ci)
                 return {"k": "con", "ty": ty["n"], "i": ci, "args": [self.gen(f, env, fuel // (len(fts) + 1)) for f in fts]}
             return self.lit(ty)
+        if t == "String":
+            if c < 0.3:
+                return {"k": "bcall", "f": "append_string", "args": [self.gen(STRING, env, fuel // 2), self.gen(STRING, env, fuel // 2)]}
+            if c < 0.45:
+                return {"k": "field", "e": self.gen_na(TAdt("Named"), env, fuel // 2), "i": 1, "ty": TAdt("Named")}
+            if c < 0.55:
+                tt = TTuple(STRING, INT)
+                return {"k": "tupidx", "e": self.gen_na(tt, env, fuel // 2), "i": 1, "ty": tt}
+            return self.lit(ty) if r.random() < 0.6 else self.gen(ty, env, fuel // 2)
+        if t == "ByteArray" and c >= 0.92:
+            return {"k": "bcall", "f": "encode_utf8", "args": [self.gen(STRING, env, fuel // 2)]}
         if t == "ByteArray":
             if c < 0.22:
                 return {"k": "bcall", "f": "append_bytearray", "args": [self.gen(BYTES, env, fuel // 2), self.gen(BYTES, env, fuel // 2)]}
@@ -535,7 +554,7 @@ class G:
         r = self.r
         c = r.random()
         if c < 0.5:
-            xt = r.choice([INT, BOOL, TList(INT), TAdt("Point"), TOption(INT), TAdt("Shape"), TTuple(INT, BOOL), BYTES])
+            xt = r.choice([INT, BOOL, TList(INT), TAdt("Point"), TOption(INT), TAdt("Shape"), TTuple(INT, BOOL), BYTES, STRING, TAdt("Named")])
             x = self.fresh("x")
             e1 = self.gen(xt, env, fuel // 2)
             body = self.gent(ty, env + [(x, xt)], fuel // 2)
@@ -557,7 +576,7 @@ class G:
             return {"k": "expect", "p": p, "ty": xt, "e": self.gen(xt, env, fuel // 2), "body": body}
         # cast from Data
         xt = r.choice([INT, BYTES, TList(INT), TAdt("Color"), TAdt("Point"), TOption(INT), TTuple(INT, BOOL), TAdt("Shape"), BOOL,
-                       TList(TPair(INT, INT)), TPair(INT, BYTES), TAdt("Tree"), TAdt("Acct")])
+                       TList(TPair(INT, INT)), TPair(INT, BYTES), TAdt("Tree"), TAdt("Acct"), TAdt("Named"), TList(STRING), TTuple(STRING, INT)])
         x = self.fresh("c")
         if r.random() < 0.8:
             src_ty = xt if r.random() < 0.8 else r.choice([INT, TList(INT), TAdt("Shape"), TTuple(INT, BOOL)])
@@ -703,6 +722,8 @@ def universe(ty, depth):
         return [{"v": "bool", "b": True}, {"v": "bool", "b": False}]
     if t == "ByteArray":
         return [{"v": "bytes", "bs": b} for b in ([9, 9, 9], [], [0], [255, 1])]
+    if t == "String":
+        return [{"v": "str", "cs": c} for c in ([], [97])]
     if t in ("Void", "Data"):
         return [{"v": "void"}]
     if t == "List":
@@ -849,6 +870,8 @@ def render(e, ind=1):
         return "True" if e["b"] else "False"
     if k == "bytes":
         return '#"%s"' % hexs(e["bs"])
+    if k == "str":
+        return '@"%s"' % "".join("\\\"" if c == 34 else "\\\\" if c == 92 else chr(c) for c in e["cs"])
     if k == "void":
         return "Void"
     if k == "var":
